@@ -83,6 +83,14 @@ void parse(Tmpl& t) {
       if (t.expect[3] == 'w') {          // ^[a-c]+[0-9]$
          member = s.len >= 2 && s.b[s.len - 1] >= '0' && s.b[s.len - 1] <= '9';
          for (int i = 0; i + 1 < s.len; ++i) member = member && s.b[i] >= 'a' && s.b[i] <= 'c';
+      } else if (t.expect[3] == 'm' || t.expect[3] == 'v') {   // value lists: m = "fast,faster,Slow" ignoring the case, v = "ab,cd,abc" (exact)
+         static const char* const LM[] = {"fast", "faster", "slow"}; static const char* const LV[] = {"ab", "cd", "abc"};
+         member = false;
+         for (const char* e : (t.expect[3] == 'm' ? LM : LV)) {
+            bool eq = std::strlen(e) == (size_t) s.len;
+            for (int i = 0; eq && i < s.len; ++i) { unsigned char c = s.b[i]; if (t.expect[3] == 'm' && c >= 'A' && c <= 'Z') c = (unsigned char) (c + 32); eq = c == (unsigned char) e[i]; }
+            member = member || eq;
+         }
       } else                             // x.?y
          member = (s.len == 2 && s.b[0] == 'x' && s.b[1] == 'y') || (s.len == 3 && s.b[0] == 'x' && s.b[2] == 'y');
       if (t.expect[4] == '+') { vs_assume(member); t.expect = "ok"; } else { vs_assume(!member); t.expect = "throw"; }
@@ -210,7 +218,12 @@ void setup(Handler& ah, Dest& d, int cfg, int part /* 0 = all, 1/2 = halves for 
    } else if (cfg == 16) {
       // pattern check (std::regex, header code of libstdc++ in the IR)
       ah.addArgument("w,word", DEST_VAR(d.w), "word")->addCheck(pattern("^[a-c]+[0-9]$")); ah.addArgument("k,key", DEST_VAR(d.k), "key")->addCheck(pattern("x.?y"));
+      ah.addArgument("m,mode", DEST_VAR(d.s), "mode")->addCheck(values("fast,faster,Slow", true));
       ah.addArgument("f,flag", DEST_VAR(d.f), "flag");
+   } else if (cfg == 17) {
+      // an argument with value mode 'command': the rest of the command line is its value
+      ah.addArgument("x,exec", DEST_VAR(d.k), "command")->setValueMode(Handler::ValueMode::command);
+      ah.addArgument("f,flag", DEST_VAR(d.f), "flag"); ah.addArgument("n,number", DEST_VAR(d.n), "number"); ah.addArgument("s,name", DEST_VAR(d.s), "name");
    } else if (cfg == 12) {
       // value constraints over three arguments
       if (in(1)) { ah.addArgument("x", DEST_VAR(d.n), "x"); ah.addArgument("y", DEST_VAR(d.m), "y"); ah.addArgument("z", DEST_VAR(d.l), "z"); ah.addConstraint(differ("x;y;z")); }
@@ -261,8 +274,13 @@ bool check_int(const Tmpl& t, const std::string& e, int got, int init, const cha
 }
 void check_str(const Tmpl& t, const std::string& e, const std::string& got, const char* init, const char* msg) {
    if (e == "_") { vs_assert(got == init, msg); return; }
-   if (e[0] == '$') { const Slot& s = t.slots[e[1] - '0']; vs_assert(got.size() == (size_t) s.len && std::memcmp(got.data(), s.b, s.len) == 0, msg); return; }
-   vs_assert(got == e, msg);
+   // expression: literal characters and $<k> (the bytes of slot k), concatenated
+   std::string want;
+   for (size_t i = 0; i < e.size(); ++i) {
+      if (e[i] == '$' && i + 1 < e.size()) { const Slot& s = t.slots[e[++i] - '0']; want.append(reinterpret_cast<const char*>(s.b), s.len); }
+      else want += e[i];
+   }
+   vs_assert(got.size() == want.size() && std::memcmp(got.data(), want.data(), want.size()) == 0, msg);
 }
 void check_vec(const Tmpl& t, const std::string& e, const std::vector<int>& got, const char* msg) {
    if (e == "_") { vs_assert(got.empty(), msg); return; }
@@ -313,7 +331,7 @@ void check_strs(const Tmpl& t, const std::string& e, const std::vector<std::stri
 }
 void check_dests(const Tmpl& t, const Dest& d) {
    for (auto& it : t.items) {
-      auto kv = split(it, '='); const std::string& k = kv[0]; const std::string& e = kv[1];
+      const size_t eqpos = it.find('='); const std::string k = it.substr(0, eqpos), e = it.substr(eqpos + 1);
       if (k == "f") vs_assert(d.f == (e == "1"), "destination f (flag)");
       else if (k == "g") vs_assert(d.g == (e == "1"), "destination g (flag)");
       else if (k == "x") vs_assert(d.x == (e == "1"), "destination x (flag)");
@@ -625,4 +643,95 @@ HX void hx_pa_progfile(uint64_t, uint64_t) {
    int rc = guarded([&] { ah.evalArguments(2, argv); });
    vs_assert(rc != 2, "only std::exception");
    delete[] a0;
+}
+
+// C05: every way of writing a short+long key pair in the specification designates the same two keys
+HX void hx_pa_keyspec(uint64_t form, uint64_t) {
+   static const char* const FORMS[] = {"n,number", "-n,--number", "--number,-n", "number,n", "n,-number", "-n,-number", "-number,n", "-number,-n", "n,--number", "--number,n", "-n,number", "number,-n"};
+   Handler ah(0); int x = 0, y = 0;
+   int rc0 = guarded([&] { ah.addArgument(FORMS[form], DEST_VAR(x), "first"); ah.addArgument("f,flag", DEST_VAR(y), "second"); });
+   vs_assert(rc0 == 0, "a short+long key pair can be specified in either order, with or without leading dashes");
+   if (rc0 != 0) return;
+   unsigned char d0 = vs_u8("val"), d1 = vs_u8("val"); vs_assume(d0 >= '1' && d0 <= '9' && d1 >= '0' && d1 <= '9');
+   char val[3] = {(char) d0, (char) d1, 0};
+   int want = (d0 - '0') * 10 + (d1 - '0');
+   unsigned which = vs_choose(6);
+   char a0[] = "prog"; char k_n[] = "-n", k_number[] = "--number", k_umber[] = "--umber", k_u[] = "-u";
+   if (which == 0) { char* argv[] = {a0, k_n, val, nullptr}; int rc = guarded([&] { ah.evalArguments(3, argv); }); vs_assert(rc == 0 && x == want, "the short key of the pair selects the argument"); }
+   else if (which == 1) { char* argv[] = {a0, k_number, val, nullptr}; int rc = guarded([&] { ah.evalArguments(3, argv); }); vs_assert(rc == 0 && x == want, "the long key of the pair selects the argument"); }
+   else if (which == 2) { char* argv[] = {a0, k_umber, val, nullptr}; int rc = guarded([&] { ah.evalArguments(3, argv); }); vs_assert(rc == 1 && x == 0, "a key that was never defined is unknown"); }
+   else if (which == 3) { char* argv[] = {a0, k_u, val, nullptr}; int rc = guarded([&] { ah.evalArguments(3, argv); }); vs_assert(rc == 1 && x == 0, "a key that was never defined is unknown"); }
+   else if (which == 4) { int z = 0; int rc = guarded([&] { ah.addArgument("x,number", DEST_VAR(z), "third"); }); vs_assert(rc == 1, "a long key that is taken is refused"); }
+   else { int z = 0; int rc = guarded([&] { ah.addArgument("n,other", DEST_VAR(z), "third"); }); vs_assert(rc == 1, "a short key that is taken is refused"); }
+}
+// C05/C01: arguments that open a sub-group (their destination is another handler).  line: 0 "--output -f V", 1 "--outp -f V",
+// 2 "-o -f V", 3 "-of V", 4 "--output --file V", 5 "--output --fi V", 6 "-i -f V"
+HX void hx_pa_subgroup(uint64_t noabbr, uint64_t line) {
+   Handler master(noabbr ? Handler::hfNoAbbr : 0), sub_out(noabbr ? Handler::hfNoAbbr : 0), sub_in(noabbr ? Handler::hfNoAbbr : 0);
+   int out_file = 0, in_file = 0, out_cache = 0; bool q = false;
+   sub_out.addArgument("f,file", DEST_VAR(out_file), "output file"); sub_out.addArgument("c,cache", DEST_VAR(out_cache), "output cache");
+   sub_in.addArgument("f,file", DEST_VAR(in_file), "input file");
+   master.addArgument("o,output", sub_out, "output arguments"); master.addArgument("i,input", sub_in, "input arguments"); master.addArgument("q,quiet", DEST_VAR(q), "quiet");
+   unsigned char d0 = vs_u8("val"), d1 = vs_u8("val"); vs_assume(d0 >= '1' && d0 <= '9' && d1 >= '0' && d1 <= '9');
+   char val[3] = {(char) d0, (char) d1, 0}; int want = (d0 - '0') * 10 + (d1 - '0');
+   static const char* const L[][3] = {{"--output", "-f", nullptr}, {"--outp", "-f", nullptr}, {"-o", "-f", nullptr}, {"-of", nullptr, nullptr}, {"--output", "--file", nullptr}, {"--output", "--fi", nullptr}, {"-i", "-f", nullptr}};
+   std::vector<std::string> words; for (int i = 0; i < 3 && L[line][i]; ++i) words.push_back(L[line][i]);
+   words.push_back(val); words.push_back("-q");
+   Argv av(words);
+   int rc = guarded([&] { master.evalArguments(av.argc(), av.argv()); });
+   vs_assert(rc != 2, "only std::exception");
+   const bool abbreviated = line == 1 || line == 5;
+   if (abbreviated && noabbr) { vs_assert(rc == 1, "a proper prefix of a long key is rejected when abbreviations are disabled (sub-group arguments included)"); return; }
+   vs_assert(rc == 0, "rule-obeying command line is accepted");
+   if (rc != 0) return;
+   if (line == 6) vs_assert(in_file == want && out_file == 0, "the value reaches the argument of the sub-group that was opened");
+   else vs_assert(out_file == want && in_file == 0, "the value reaches the argument of the sub-group that was opened");
+   vs_assert(q && out_cache == 0, "other arguments are evaluated as usual / unused ones keep their value");
+}
+// C07: program-argument file AND environment variable enabled: both sources are evaluated, then argv.  Words before "\x02" go
+// into the environment variable, words between "\x02" and "\x03" into the file (if the file exists), the rest on argv.
+// mode bit 0: the file does not exist
+HX void hx_pa_file_env(uint64_t cfg, uint64_t mode) {
+   Tmpl t; parse(t);
+   Dest d;
+   Handler ah(Handler::hfReadProgArg | Handler::hfEnvVarArgs);
+   setup(ah, d, (int) cfg, 0);
+   std::string env, content; std::vector<std::string> cmd; int where = 0;
+   for (auto& w : t.words) {
+      if (w == "\x02") { where = 1; continue; }
+      if (w == "\x03") { where = 2; continue; }
+      if (where == 0) { if (!env.empty()) env += ' '; env += w; }
+      else if (where == 1) { if (!content.empty()) content += ' '; content += w; }
+      else cmd.push_back(w);
+   }
+   content += '\n';
+   vs_setenv("HOME", "/tmp/vs_home"); vs_setenv("PROG", env.c_str());
+   if (!(mode & 1)) vs_file("/tmp/vs_home/.progargs/prog.pa", content.data(), content.size());
+   Argv av(cmd);
+   int rc = guarded([&] { ah.evalArguments(av.argc(), av.argv()); });
+   judge(t, rc, d);
+}
+// C07/C03: an argument file named on the command line (addArgumentFile): its lines are evaluated like command line words at that
+// position, and a value from the file can be overridden by a later value on the command line.  Words before "\x02" are the file.
+HX void hx_pa_argfile(uint64_t cfg, uint64_t mode) {
+   Tmpl t; parse(t);
+   Dest d;
+   Handler ah(0);
+   setup(ah, d, (int) cfg, 0);
+   ah.addArgumentFile("arg-file");
+   std::string content; std::vector<std::string> cmd; bool in_file = true, line_open = false;
+   cmd.push_back("--arg-file"); cmd.push_back("/tmp/vs_home/args.txt");
+   for (auto& w : t.words) {
+      if (w == "\x02") { in_file = false; continue; }
+      if (!in_file) { cmd.push_back(w); continue; }
+      if (w == "\x03") { content += '\n'; line_open = false; continue; }
+      if (line_open) content += ' ';
+      content += w; line_open = true;
+   }
+   if (line_open) content += '\n';
+   if (mode & 1) { std::vector<std::string> c2(cmd.begin() + 2, cmd.end()); c2.push_back("--arg-file"); c2.push_back("/tmp/vs_home/args.txt"); cmd = c2; }     // the file is named last
+   vs_file("/tmp/vs_home/args.txt", content.data(), content.size());
+   Argv av(cmd);
+   int rc = guarded([&] { ah.evalArguments(av.argc(), av.argv()); });
+   judge(t, rc, d);
 }
